@@ -349,6 +349,63 @@ func init() {
 		Assumptions: []string{"each Write call carries exactly one whole line (fmt.Fprintln performs one Write)"},
 		Trusted:     streamTrusted,
 	}
+	cryptoTrusted := append(append([]string{}, commonTrusted...),
+		"tink deterministic AEAD, keyset handle and protobuf marshalling as uninterpreted functions: Dec(k,Enc(k,m,ad),ad)=m, len(Enc)=len(m)+16, handle = function of the serialised keyset (every field the repository sets), nothing else (no authenticity)",
+		"encoding/base64 on unbounded strings as uninterpreted injective function b64 with DecodeString(b64(x))=(x,nil); the real base64 code is executed on symbolic bytes for lengths 0..6 (job base64-roundtrip)")
+	propChecks["C09"] = &PropCheck{
+		ID: "C09", Title: "Encrypted values decrypt back to exactly the original",
+		Jobs: func(e *Engine, tier string) []*Job {
+			return []*Job{
+				{Name: "redactString-decrypt", Harness: "H_c09", Lines: map[string]*Template{}, Params: map[string]string{}},
+				{Name: "base64-roundtrip", Harness: "H_c09_b64", Lines: map[string]*Template{}, Params: map[string]string{"realBase64": "yes"}},
+			}
+		},
+		Functions: []string{"redactString", "Encrypt", "Decrypt", "keysetHandleFromRawKey", "ReadKeyFromFile"},
+		Witness:   []string{"emitted"},
+		Bounds: map[string]any{
+			"plaintext": "arbitrary string of any length (SMT string), arbitrary 64-byte key",
+			"path":      "redactString (the single choke point of encrypt mode) -> key file content as WriteKeyToFile stores it -> ReadKeyFromFile -> base64 decode -> Decrypt, i.e. the steps of the decrypt command",
+			"base64":    "real stdlib code on symbolic bytes, lengths 0..6",
+			"outside":   "'a different key or an altered ciphertext fails': authenticity of AES-SIV is a cryptographic (probabilistic) claim, not decidable here; the cobra wiring of the decrypt command; key file with trailing newline",
+		},
+		Assumptions: []string{"round trip rests on the contract Dec(k,Enc(k,m,ad),ad)=m of the tink primitive with the same keyset and associated data; a change of key material, template, prefix type or associated data on one side only breaks syntactic equality of the keyset / ad terms and is reported"},
+		Trusted:     cryptoTrusted,
+	}
+	propChecks["C10"] = &PropCheck{
+		ID: "C10", Title: "Encryption is deterministic, injective, placeholder-equivalent and fail-closed",
+		Jobs: func(e *Engine, tier string) []*Job {
+			specs := corpusFor(tier, func(t tplSpec) bool {
+				return tier != "quick" || strings.HasSuffix(t.Name, "/str") || strings.HasSuffix(t.Name, "/date") || strings.HasSuffix(t.Name, "/bin") || strings.HasSuffix(t.Name, "/oid") || !strings.Contains(t.Name[strings.LastIndex(t.Name, "/")+1:], "")
+			})
+			var jobs []*Job
+			for i, sp := range specs {
+				if tier == "quick" && i%3 != 0 {
+					continue
+				}
+				tpl, _ := ParseTemplate("L0", sp.Text)
+				jobs = append(jobs, &Job{Name: sp.Name, Harness: "H_c10", Lines: map[string]*Template{"L0": tpl}, Params: map[string]string{"nonEmpty": "yes"}})
+			}
+			// fail-closed: unusable key material injected at the API level (any length but 64)
+			for _, n := range []string{"find.filter/field/str", "find.filter/in/date", "update.updates.u/set/str", "stage:project/lit/str", "insert.documents/doc2/oid"} {
+				for _, sp := range buildCorpus() {
+					if sp.Name == n {
+						tpl, _ := ParseTemplate("L0", sp.Text)
+						jobs = append(jobs, &Job{Name: sp.Name + "~badKey", Harness: "H_c10", Lines: map[string]*Template{"L0": tpl}, Params: map[string]string{"badKey": "yes", "nonEmpty": "yes"}})
+					}
+				}
+			}
+			return jobs
+		},
+		Functions: append(append([]string{}, walkerFunctions...), "Encrypt", "keysetHandleFromRawKey"),
+		Witness:   []string{"emitted"},
+		Bounds: map[string]any{
+			"templates": "engine/spec.go corpus (quick: every third template), each run in placeholder and in encrypt mode on the same symbolic line",
+			"failures":  "unusable key material (any length other than 64 bytes) installed through the API on 5 representative lines",
+			"key":       "arbitrary 64 bytes",
+		},
+		Assumptions: []string{"non-empty literals (quick)", "injectivity follows from Dec(Enc(m))=m and the injectivity of base64 (contracts)"},
+		Trusted:     cryptoTrusted,
+	}
 	propChecks["C01"] = &PropCheck{
 		ID:    "C01",
 		Title: "Sensitive literal values never survive redaction (full-redaction mode)",
